@@ -60,6 +60,7 @@ pub fn profile(id: &str) -> Profile {
         "C08" => {
             p.opw = OpW { futsync: 12, await_: 8, dropfut: 8, pollonce: 8, desync: 6, sync: 4, futdesync: 4, ..OpW::default() };
             p.stepw = StepW { awaitfutsync: 4, awaitfutdesync: 3, awaitgate: 8, ..StepW::default() };
+            p.lifecycle_pct = 25;
             p.gates = (1, 3);
             p.wakers = (1, 2);
         }
@@ -491,7 +492,7 @@ pub fn abandoned_poll_case(p: &Profile) -> BoxedStrategy<Case> {
 pub fn pipein_case(p: &Profile) -> BoxedStrategy<Case> {
     let p = p.clone();
     let pipe_body = vec(prop_oneof![3 => Just(Step::Touch), 5 => Just(Step::Yield), 3 => any::<u8>().prop_map(|g| Step::AwaitGate { g }), 1 => Just(Step::SelfWake)], 0..=3);
-    let producer = vec(prop_oneof![3 => Just(POp::Yield), 4 => (1u8..=3).prop_map(|n| POp::Push { n }), 4 => Just(POp::PushDuring), 1 => Just(POp::Close)], 1..=7);
+    let producer = vec(prop_oneof![6 => Just(POp::Yield), 8 => (1u8..=3).prop_map(|n| POp::Push { n }), 1 => (32u8..=36).prop_map(|n| POp::Push { n }), 8 => Just(POp::PushDuring), 2 => Just(POp::Close)], 1..=7);
     (cfg_strategy(&p), phase_strategy(&p), sched_strategy(p.sched_bytes), (any::<u8>(), any::<u8>(), any::<u8>(), pipe_body, producer)).prop_map(|(mut cfg, mut phase, sched, (which, pos, o, body, producer))| {
         cfg.streams = cfg.streams.max(1);
         cfg.level = Level::Desync;
@@ -525,7 +526,7 @@ pub fn pipedrop_case(p: &Profile, drop_output: bool) -> BoxedStrategy<Case> {
     let producer = if drop_output {
         vec(prop_oneof![3 => Just(POp::Yield), 6 => (1u8..=3).prop_map(|n| POp::Push { n })], 0..=5).boxed()
     } else {
-        vec(prop_oneof![2 => Just(POp::Yield), 5 => (1u8..=4).prop_map(|n| POp::Push { n }), 3 => Just(POp::PushDuring), 1 => Just(POp::Close)], 1..=6).boxed()
+        vec(prop_oneof![4 => Just(POp::Yield), 10 => (1u8..=4).prop_map(|n| POp::Push { n }), 1 => (33u8..=36).prop_map(|n| POp::Push { n }), 6 => Just(POp::PushDuring), 2 => Just(POp::Close)], 1..=6).boxed()
     };
     (cfg_strategy(&p), phase_strategy(&p), sched_strategy(p.sched_bytes), (any::<u8>(), any::<u8>(), any::<u8>(), any::<u8>(), mid_ops, pipe_body, producer)).prop_map(move |(mut cfg, mut phase, sched, (which, pos, o, depth, mid, body, producer))| {
         cfg.streams = cfg.streams.max(1);
